@@ -11,7 +11,7 @@ Inductive exn :=
 | BadReadSize | BadAlign | SectorReadError | AttemptToReadBeyondBuffer
 | InvalidCharacter | KeyErr | ValueErr | BadCueSheet | ReError
 | NoDataStream | IncompatibleNumberOfChannels | CouldNotDetermineName
-| ErrorInvalidPath | StructErr | OverflowErr.
+| ErrorInvalidPath | StructErr | OverflowErr | AssertionErr.
 
 Inductive res (A : Type) :=
 | Ok (a : A)
@@ -56,7 +56,7 @@ Definition exn_code (e : exn) : Z :=
   | AttemptToReadBeyondBuffer => 8 | InvalidCharacter => 9 | KeyErr => 10
   | ValueErr => 11 | BadCueSheet => 12 | ReError => 13 | NoDataStream => 14
   | IncompatibleNumberOfChannels => 15 | CouldNotDetermineName => 16
-  | ErrorInvalidPath => 17 | StructErr => 18 | OverflowErr => 19
+  | ErrorInvalidPath => 17 | StructErr => 18 | OverflowErr => 19 | AssertionErr => 20
   end.
 (** A result is rendered as (0 v) | (1 code) | (2). *)
 Definition vres {A} (f : A -> val) (r : res A) : val :=
